@@ -28,6 +28,7 @@ import SigModel.Lemmas.C04B
 import SigModel.Spec.Logs
 import SigModel.Lemmas.C04Se
 import SigModel.Lemmas.C04Tc
+import SigModel.Model.HllKey
 
 namespace SigModel.Props.C04
 open SigModel.Gen SigModel.MachInt
@@ -763,5 +764,70 @@ example :
     (foldRB exact [.int 5, .str [97]]).map (·.min) = some (.int 5) ∧
     (mergeRB exact (foldRB exact [.str [97]]) (foldRB exact [.int 5])).map (·.max) = some (.int 5) := by
   decide
+
+end SigModel.Props.C04
+
+/-! ## C04.H the distinct-value key: a segment answered from its .sst file and a segment recomputed from its records count
+a value ONCE (Model/HllKey.lean; suite hllkey; end to end: e2e_c03 / e2e_c04 tag sst-and-raw-in-one-query).  Code as FIXED
+by patch c04-16; the former query-time key is `hllKeyQueryOld`. -/
+namespace SigModel.Props.C04
+open SigModel.Stats SigModel.HllKey SigModel.MachInt
+
+/-- C04.H1 `hll_key_ingest_eq_query`: for EVERY value — every integer, every float, every string (numeric text included),
+an absent field — the ingest-time statistics (.sst) and the query-time statistics feed the sketch the SAME bytes. -/
+theorem hll_key_ingest_eq_query (v : Val) : hllKeyIngest v = hllKeyQuery v := by
+  cases v <;> rfl
+
+/-- C04.H2 the keys of two int64 are equal only if the integers are: the sketch separates distinct integers and, with H1,
+counts an integer that occurs in an .sst-answered and in a recomputed segment once. -/
+theorem i64Key_injective (a b : Int) (ha : fitsI64 a) (hb : fitsI64 b) (h : i64Key a = i64Key b) : a = b := by
+  have h2 := congrArg ofLe h
+  have p8 : (256 : Nat) ^ 8 = 18446744073709551616 := by decide
+  simp only [i64Key, ofLe_leBytes, p8, wrapU64] at h2
+  simp [fitsI64] at ha hb
+  omega
+
+/-- C04.H3 `merged_sketch_same_keys` (full strength, every value list): the union of the sketch of a segment answered from
+its .sst file (`keysI vs`) with the sketch of ANY segment recomputed from records (`keysQ ws`) is the list of keys of the
+one-path computation over all the values: nothing is counted twice, whatever the split. -/
+theorem merged_sketch_same_keys (vs ws : List Val) : keysI vs ++ keysQ ws = keysI (vs ++ ws) := by
+  have e : ∀ ws : List Val, keysQ ws = keysI ws := by
+    intro ws
+    induction ws with
+    | nil => rfl
+    | cons w r ih =>
+      simp only [keysQ, keysI] at ih ⊢
+      simp only [List.filterMap_cons, ← hll_key_ingest_eq_query w, ih]
+  simp [e ws, keysI, List.filterMap_append]
+
+/-- the code AS FOUND agreed on every value that is not numeric text … -/
+theorem hll_key_old_partial (rnd : Rat → Rat) (v : Val) (h : ¬ NumericText rnd v) :
+    hllKeyIngest v = hllKeyQueryOld rnd v := by
+  cases v with
+  | absent => rfl
+  | int i => rfl
+  | flt q => rfl
+  | str s =>
+    simp only [NumericText] at h
+    simp only [hllKeyIngest, hllKeyQueryOld]
+    cases hp : parseFast rnd s with
+    | none => rfl
+    | some q => simp [hp] at h
+
+/-- … and the excluded class was real: a numeric text whose length is not 8 bytes ("7", "007", "2.50") entered the sketch as
+its text at ingest time and as the 8 bytes of the number at query time, so `dc` of a column holding such strings counted
+the value twice when one segment was answered from .sst and another from records (recorded as
+stats/hll-key/numeric-text-counted-twice, e2e/stats/dc-over-numeric-text; repaired by patch c04-16). -/
+theorem hll_key_old_numeric_text_differs (rnd : Rat → Rat) (s : Str) (q : Rat) (hp : parseFast rnd s = some q) (hl : s.length ≠ 8) :
+    hllKeyIngest (.str s) ≠ hllKeyQueryOld rnd (.str s) := by
+  simp only [hllKeyIngest, hllKeyQueryOld, hp]
+  intro h
+  have := congrArg List.length (Option.some.inj h)
+  simp only [f64Key, leBytes_length] at this
+  exact hl this
+
+/-- the guard of `hll_key_old_partial` is satisfiable and its complement is inhabited: "abc" is no numeric text (exact
+arithmetic) -/
+example : ¬ NumericText exact (.str [97, 98, 99]) := by decide
 
 end SigModel.Props.C04
